@@ -60,7 +60,9 @@ pub fn replay(a: &Args) {
             continue;
         }
         let exp = &c["expect"];
-        let base = json!({"kind": "parser", "docs": docs_json(&docs), "expected": exp, "actual": last.to_json(), "ncalls": calls.len()});
+        let default_cfg = docs.iter().all(|d| d.1 == ReaderCfg::default_cfg());
+        let base = json!({"kind": "parser", "docs": docs_json(&docs), "expected": exp, "actual": last.to_json(), "ncalls": calls.len(),
+                          "default_cfg": default_cfg});
         let mut report = |class: &str, detail: Value, mismatches: &mut Vec<Value>| {
             let mut m = base.clone();
             m["class"] = json!(class);
